@@ -252,4 +252,115 @@ theorem lt_two63_mul_of_mid {x : ℕ} (h63 : 2 ^ 63 ≤ x) (h93 : x < 2 ^ 93) {y
     _ = 2 ^ 63 * c := by ring
     _ ≤ 2 ^ 63 * y := Nat.mul_le_mul_left _ hy
 
+/-! ### the two casts `(int64_t)(x13 * alpha_y)` and `(int64_t)(y * alpha_z)` -/
+
+theorem int_le_of_rat_lt {t N : ℤ} {B : ℚ} (h : (t : ℚ) ≤ B) (hB : B < (N : ℚ) + 1) : t ≤ N := by
+  have : (t : ℚ) < ((N + 1 : ℤ) : ℚ) := by push_cast; exact lt_of_le_of_lt h hB
+  have : t < N + 1 := by exact_mod_cast this
+  omega
+
+theorem int_nonneg_of_rat {t : ℤ} {p : ℚ} (hp : 0 ≤ p) (h : p < (t : ℚ) + 1) : 0 ≤ t := by
+  have : ((-1 : ℤ) : ℚ) < (t : ℚ) := by push_cast; linarith
+  have : (-1 : ℤ) < t := by exact_mod_cast this
+  omega
+
+/-- `v = trunc(fl(c·ay))` with `1 ≤ ay ≤ r6`: `0 ≤ v ≤ s·(1+ε)` -/
+theorem v_bounds {x : ℕ} {ay : ℚ} {v : ℤ} (hay1 : 1 ≤ ay) (hay : ay ≤ (irootN 6 x : ℚ))
+    (hv : TruncNear ((irootN 3 x : ℚ) * ay) v) : 0 ≤ v ∧ (v : ℚ) ≤ (isqrtN x : ℚ) * (1 + relEps) := by
+  obtain ⟨hv1, hv2⟩ := hv
+  have hc0 : (0 : ℚ) ≤ (irootN 3 x : ℚ) := by positivity
+  refine ⟨int_nonneg_of_rat (mul_nonneg (mul_nonneg hc0 (by linarith)) one_sub_relEps_pos.le) hv1, ?_⟩
+  have h1 : (irootN 3 x : ℚ) * ay ≤ (isqrtN x : ℚ) := by
+    calc (irootN 3 x : ℚ) * ay ≤ (irootN 3 x : ℚ) * (irootN 6 x : ℚ) := mul_le_mul_of_nonneg_left hay hc0
+      _ = ((irootN 3 x * irootN 6 x : ℕ) : ℚ) := by push_cast; ring
+      _ ≤ (isqrtN x : ℚ) := by exact_mod_cast c_mul_r6_le_s x
+  exact le_trans hv2 (mul_le_mul_of_nonneg_right h1 one_add_relEps_pos.le)
+
+/-- numeric closing step: below `3·2^61` (+2^21) and three rounding factors, still below `2^63 − 1` -/
+theorem below_i64 {s : ℕ} (hs : s < 3 * 2 ^ 61) {t : ℤ} (ht : (t : ℚ) ≤ ((s : ℚ) + 2 ^ 21) * (1 + relEps) ^ 3) : t ≤ i64Max := by
+  apply int_le_of_rat_lt ht
+  have hsq : (s : ℚ) ≤ 3 * 2 ^ 61 := by exact_mod_cast hs.le
+  have : ((s : ℚ) + 2 ^ 21) * (1 + relEps) ^ 3 ≤ (3 * 2 ^ 61 + 2 ^ 21) * (1 + relEps) ^ 3 :=
+    mul_le_mul_of_nonneg_right (by linarith) (by have := one_add_relEps_pos; positivity)
+  refine lt_of_le_of_lt this ?_
+  rw [relEps_eq]; unfold i64Max; norm_num
+
+theorem one_le_e : (1 : ℚ) ≤ 1 + relEps := by have := relEps_pos; linarith
+
+theorem le_mul_e {a : ℚ} (ha : 0 ≤ a) : a ≤ a * (1 + relEps) := by
+  have := mul_le_mul_of_nonneg_left one_le_e ha; linarith
+
+/-- the clamped `y` is at most `max v (c+1)` and at most `max (s−1) 1` -/
+theorem gY_le (x : ℕ) (v : ℤ) : gY x v ≤ max v ((irootN 3 x : ℤ) + 1) ∧ gY x v ≤ max ((isqrtN x : ℤ) - 1) 1 ∧ 1 ≤ gY x v := by
+  unfold gY clampY
+  have : (0 : ℤ) ≤ (irootN 3 x : ℤ) := by positivity
+  omega
+
+/-- `w = trunc(fl(y·az))` for the clamped `y`, `az = 1` or `ay·az ≤ r6·(1+ε)`: `0 ≤ w ≤ (s + 2^21)(1+ε)³` -/
+theorem w_bounds {x : ℕ} {ay az : ℚ} {v w : ℤ} (hx1 : 1 ≤ x) (hr6 : irootN 6 x ≤ 2 ^ 21)
+    (hay1 : 1 ≤ ay) (hay : ay ≤ (irootN 6 x : ℚ)) (haz1 : 1 ≤ az)
+    (haz : az = 1 ∨ ay * az ≤ (irootN 6 x : ℚ) * (1 + relEps))
+    (hv : TruncNear ((irootN 3 x : ℚ) * ay) v) (hw : TruncNear ((gY x v : ℚ) * az) w) :
+    0 ≤ w ∧ (w : ℚ) ≤ ((isqrtN x : ℚ) + 2 ^ 21) * (1 + relEps) ^ 3 := by
+  obtain ⟨hw1, hw2⟩ := hw
+  obtain ⟨hy1, hy2, hy3⟩ := gY_le x v
+  set y := gY x v with hy
+  have hyq : (1 : ℚ) ≤ (y : ℚ) := by exact_mod_cast hy3
+  have hs1 : 1 ≤ isqrtN x := one_le_isqrt x hx1
+  have he := one_add_relEps_pos
+  have he1 := one_le_e
+  have hs0 : (0 : ℚ) ≤ (isqrtN x : ℚ) := by positivity
+  refine ⟨int_nonneg_of_rat (mul_nonneg (mul_nonneg (by linarith) (by linarith)) one_sub_relEps_pos.le) hw1, ?_⟩
+  -- y·az ≤ (s + 2^21)·e²
+  have key : (y : ℚ) * az ≤ ((isqrtN x : ℚ) + 2 ^ 21) * (1 + relEps) ^ 2 := by
+    have hS : (0 : ℚ) ≤ (isqrtN x : ℚ) + 2 ^ 21 := by positivity
+    rcases haz with h1 | h2
+    · -- az = 1: y ≤ s
+      have hys : (y : ℚ) ≤ (isqrtN x : ℚ) := by
+        have : y ≤ (isqrtN x : ℤ) := by omega
+        exact_mod_cast this
+      rw [h1, mul_one]
+      calc (y : ℚ) ≤ (isqrtN x : ℚ) := hys
+        _ ≤ (isqrtN x : ℚ) + 2 ^ 21 := by linarith [show (0 : ℚ) ≤ 2 ^ 21 by positivity]
+        _ ≤ ((isqrtN x : ℚ) + 2 ^ 21) * (1 + relEps) ^ 2 := by
+          have : (1 : ℚ) ≤ (1 + relEps) ^ 2 := one_le_pow₀ he1
+          have := mul_le_mul_of_nonneg_left this hS
+          linarith
+    · obtain ⟨_, hv2⟩ := hv
+      have haz0 : (0 : ℚ) ≤ az := by linarith
+      have hc0 : (0 : ℚ) ≤ (irootN 3 x : ℚ) := by positivity
+      have hcr : (irootN 3 x : ℚ) * (irootN 6 x : ℚ) ≤ (isqrtN x : ℚ) := by
+        have : ((irootN 3 x * irootN 6 x : ℕ) : ℚ) ≤ (isqrtN x : ℚ) := by exact_mod_cast c_mul_r6_le_s x
+        push_cast at this; exact this
+      have hr6q : (irootN 6 x : ℚ) ≤ 2 ^ 21 := by exact_mod_cast hr6
+      rcases le_max_iff.1 hy1 with hyv | hyc
+      · -- y ≤ v ≤ c·ay·e
+        have hyvq : (y : ℚ) ≤ (v : ℚ) := by exact_mod_cast hyv
+        calc (y : ℚ) * az ≤ ((irootN 3 x : ℚ) * ay * (1 + relEps)) * az :=
+              mul_le_mul_of_nonneg_right (le_trans hyvq hv2) haz0
+          _ = (irootN 3 x : ℚ) * (ay * az) * (1 + relEps) := by ring
+          _ ≤ (irootN 3 x : ℚ) * ((irootN 6 x : ℚ) * (1 + relEps)) * (1 + relEps) :=
+              mul_le_mul_of_nonneg_right (mul_le_mul_of_nonneg_left h2 hc0) he.le
+          _ = ((irootN 3 x : ℚ) * (irootN 6 x : ℚ)) * (1 + relEps) ^ 2 := by ring
+          _ ≤ ((isqrtN x : ℚ) + 2 ^ 21) * (1 + relEps) ^ 2 :=
+              mul_le_mul_of_nonneg_right (by linarith [show (0 : ℚ) ≤ 2 ^ 21 by positivity]) (by positivity)
+      · -- y ≤ c + 1
+        have hycq : (y : ℚ) ≤ (irootN 3 x : ℚ) + 1 := by exact_mod_cast hyc
+        have h3 : az ≤ ay * az := by
+          have := mul_le_mul_of_nonneg_right hay1 haz0
+          linarith
+        have hc1 : (0 : ℚ) ≤ (irootN 3 x : ℚ) + 1 := by positivity
+        calc (y : ℚ) * az ≤ ((irootN 3 x : ℚ) + 1) * (ay * az) := mul_le_mul hycq h3 haz0 hc1
+          _ ≤ ((irootN 3 x : ℚ) + 1) * ((irootN 6 x : ℚ) * (1 + relEps)) := mul_le_mul_of_nonneg_left h2 hc1
+          _ = ((irootN 3 x : ℚ) * (irootN 6 x : ℚ) + (irootN 6 x : ℚ)) * (1 + relEps) := by ring
+          _ ≤ ((isqrtN x : ℚ) + 2 ^ 21) * (1 + relEps) := mul_le_mul_of_nonneg_right (by linarith) he.le
+          _ ≤ ((isqrtN x : ℚ) + 2 ^ 21) * (1 + relEps) ^ 2 := by
+            have : (1 + relEps) ≤ (1 + relEps) ^ 2 := by
+              have := mul_le_mul_of_nonneg_left he1 he.le
+              nlinarith
+            exact mul_le_mul_of_nonneg_left this hS
+  calc (w : ℚ) ≤ (y : ℚ) * az * (1 + relEps) := hw2
+    _ ≤ ((isqrtN x : ℚ) + 2 ^ 21) * (1 + relEps) ^ 2 * (1 + relEps) := mul_le_mul_of_nonneg_right key he.le
+    _ = ((isqrtN x : ℚ) + 2 ^ 21) * (1 + relEps) ^ 3 := by ring
+
 end Pc
